@@ -412,6 +412,10 @@ def run(ctx: Ctx) -> None:
         except (Unsupported, Raised, KeyError, IndexError, AttributeError, TypeError) as e:
             ctx.undecided("R-C05.1", key, eb_cls.where, f"{type(e).__name__}: {e}")
 
+    # ---- custom checkers that fold a call away must keep the evaluation of its argument
+    from . import c05_callable
+    c05_callable.run(ctx)
+
     # ---- desugarings in the checker that reuse an operand
     va = idx.method("StmtChecker", "visit_AugAssign", "guppylang_internals.checker.stmt_checker")
     uses = [n for n in walk_no_nested(va.node) if isinstance(n, ast.Attribute) and ast.unparse(n) == "node.target" and isinstance(n.ctx, ast.Load)]
